@@ -96,6 +96,11 @@ def cases(tier):
             yield ('shared', order)
     for variant in ('suite-conf', 'suite-conf-and-sub-suite', 'failing'):
         yield ('preprocessor', variant)
+    # [conf] given by the suite comes BEFORE the case's own [conf]: what the case sets itself wins
+    for ss in (None, 'PASS', 'FAIL', 'SKIP'):
+        for cs in (None, 'PASS', 'FAIL', 'SKIP'):
+            for failing in (False, True):
+                yield ('conf-order', ss, cs, failing)
 
 
 def _mk_seam(w, seam, probes):
@@ -175,6 +180,8 @@ def run(case) -> Result:
         return _shared(res, case, w, seam, mp)
     if k == 'preprocessor':
         return _preprocessor(res, case, w, seam, mp)
+    if k == 'conf-order':
+        return _conf_order(res, case, w, seam, mp)
     return _isolation(res, case, w, seam, mp)
 
 
@@ -492,6 +499,52 @@ def _shared(res, case, w, seam, mp):
                 errs.append('%s: case k%d: suite-supplied `run` got %s, the case\'s own values give %s' % (mode, i, c['args'], wantargs))
     res.nontrivial += 1
     res.outcomes[('shared', len(order))] += 1
+    res.validated += 0 if errs else 1
+    if errs:
+        res.violation(case, errs)
+    return res
+
+
+def _conf_order(res, case, w, seam, mp):
+    """Suite [conf] `status` and case [conf] `status`: the effective status is the case's own if it sets one, else the suite's (suite contents is
+    included before the case's); the same in a suite run, with --suite and with the suite as exactly.suite beside the case."""
+    _, ss, cs, failing = case
+    eff = cs or ss or 'PASS'
+    if eff == 'SKIP':
+        want = 'SKIPPED'
+    elif eff == 'FAIL':
+        want = 'XFAIL' if failing else 'XPASS'
+    else:
+        want = 'FAIL' if failing else 'PASS'
+    seam.default = {'exit': 0}
+    suite = ('[conf]\nstatus = %s\n' % ss if ss else '') + '[cases]\nk.case\n'
+    kcase = ('[conf]\nstatus = %s\n' % cs if cs else '') + '[act]\n%% atc\n[assert]\nexit-code == %d\n' % (1 if failing else 0)
+    errs = []
+    for mode in ('suite-run', 'dash-suite', 'beside'):
+        w.reset()
+        seam.calls.clear()
+        sname = 'exactly.suite' if mode == 'beside' else 'main.suite'
+        w.write(sname, suite)
+        w.write('k.case', kcase)
+        if mode == 'suite-run':
+            o = cli.run(['suite', str(w.home / sname)], mp=mp)
+            lines = [re.sub(r'\(\d+\.\d+s\) ', '', l) for l in o.out.split('\n') if l.startswith('case')]
+            got = lines[0].split(': ')[-1] if lines else 'no case line: %r' % o.out[:200]
+        elif mode == 'dash-suite':
+            o = cli.run(['--suite', str(w.home / sname), str(w.home / 'k.case')], mp=mp)
+            got = o.ident
+        else:
+            o = cli.run([str(w.home / 'k.case')], mp=mp)
+            got = o.ident
+        res.n += 1
+        ran = any(c['name'] == 'atc' for c in seam.calls)
+        if got != want:
+            errs.append('%s: suite status %s, case status %s, %s assertion: outcome %s, expected %s (the case\'s own setting wins)' % (
+                mode, ss, cs, 'failing' if failing else 'passing', got, want))
+        if ran != (want != 'SKIPPED'):
+            errs.append('%s: the action to check was %s' % (mode, 'executed although the case is SKIPPED' if ran else 'not executed'))
+    res.nontrivial += 1
+    res.outcomes[('conf-order', want)] += 1
     res.validated += 0 if errs else 1
     if errs:
         res.violation(case, errs)
